@@ -682,6 +682,7 @@ def inproc(ctx):
     ctx.log("in-process runs done: %d cases" % len(cases))
     evaluate(ctx, cases)
     ctx.log("Coq evaluation done")
+    reader(ctx, cases)
 
 
 def threads(ctx):
@@ -765,6 +766,109 @@ def threads(ctx):
                  size=len(lines))
     if cases:
         evaluate(ctx, cases, "c17_threads")
+
+
+# ---------------------------------------------------------------- reader side: what the user sees of the events
+EV_NAME = {100001: "read:proc/statm", 100002: "read:page-fault", 100003: "diff:proc/statm", 100004: "diff:page-fault",
+           100005: "read:pmu-cycle", 100006: "diff:pmu-cycle", 100007: "read:pmu-cache", 100008: "diff:pmu-cache",
+           100009: "read:pmu-branch", 100010: "diff:pmu-branch", ID_CPU: "watch:cpu", ID_VAR: "watch:var"}
+EV_FIELDS = {"proc/statm": ("vmsize=%sKB", "vmrss=%sKB", "shared=%sKB"), "page-fault": ("major=%s", "minor=%s"),
+             "pmu-cycle": ("cycles=%s", "instructions=%s"), "pmu-cache": ("refers=%s", "misses=%s"),
+             "pmu-branch": ("branch=%s", "misses=%s")}
+WVAR_OFF = 0x3000       # the watched variable's place in the synthetic module
+
+
+def signed64(v):
+    return v - (1 << 64) if v >= 1 << 63 else v
+
+
+def event_text(eid, data, verbose):
+    """the text a reader must show for an event: a read event shows the readings, a diff event the (signed)
+    difference of the two readings, with an explicit sign in replay"""
+    name = EV_NAME[eid]
+    kind, what = name.split(":", 1)
+    if kind == "watch":
+        if what == "cpu":
+            v = data[0]
+            return "cpu=%d" % (v - (1 << 32) if v >= 1 << 31 else v)
+        return "wvar=%x" % data[0]
+    if kind == "read":
+        vals = ["%d" % v for v in data]
+    else:
+        vals = [("%+d" if verbose else "%d") % signed64(v) for v in data]
+    return " ".join(f % v for f, v in zip(EV_FIELDS[what], vals))
+
+
+def reader(ctx, cases):
+    """the streams the real libmcount produced, written as a data directory, read back by `uftrace dump` and
+    `uftrace replay`: every event must be shown, in stream order, inside the right call, with the values it carries
+    (utils/fstack.c read_task_event, utils/event.c names and values; diff values are signed differences)"""
+    from vf import datadir as D
+    import struct
+    objdir = build.get_build("plain", ctx.log)
+    base = 0x400000
+    syms = D.default_syms(6) + [(WVAR_OFF, 8, "D", "wvar")]
+    names = [x[3] for x in syms]
+    pick = [c for c in cases if c["complete"] and hook_gaps_ok(c["evs"]) and not c.get("thread_script")
+            and any(it[0] == "E" for it in c["res"]["items"])][:ctx.n(20, 300)]
+    nev = 0
+    for ci, c in enumerate(pick):
+        recs, exp_dump, exp_replay, depth = [], [], [], 0
+        for it in c["res"]["items"]:
+            if it[0] == "R":
+                k = it[5] // 256
+                recs.append({"t": it[1], "type": it[2], "depth": it[4], "addr": base + syms[k][0]})
+                depth += 1 if it[2] == 0 else -1
+            else:
+                eid, data = it[2], it[3]
+                if eid == ID_VAR:
+                    raw = struct.pack("<QQ", base + WVAR_OFF, data[0])
+                elif eid == ID_CPU:
+                    raw = struct.pack("<I", data[0])
+                else:
+                    raw = b"".join(struct.pack("<Q", w) for w in data)
+                recs.append({"t": it[1], "type": 3, "depth": 0, "addr": eid, "payload": struct.pack("<H", len(raw)) + raw})
+                exp_dump.append("%s: %s" % (EV_NAME[eid], event_text(eid, data, False)))
+                exp_replay.append((depth, "%s (%s)" % (EV_NAME[eid], event_text(eid, data, True))))
+                nev += 1
+        d = os.path.join(ctx.scratch, "c17rd%d" % (ci % 4))
+        shutil.rmtree(d, ignore_errors=True)
+        D.write({"tasks": [{"tid": 100, "pid": 100, "ppid": None, "recs": recs}], "syms": syms, "base": base, "events": True}, d)
+        rc1, out1, err1 = D.uftrace(objdir, "dump", d)
+        rc2, out2, err2 = D.uftrace(objdir, "replay", d, ["-f", "none", "--event-full"])
+        got_dump = []
+        for l in out1.splitlines():
+            l = l.strip()
+            if l.split(":", 1)[0] in ("read", "diff", "watch") and ": " in l:
+                got_dump.append(strip_derived(l))
+        got_replay = []
+        for l in out2.splitlines():
+            t = l.strip()
+            if t.startswith("/* ") and t[3:].split(":", 1)[0] in ("read", "diff", "watch"):
+                got_replay.append(((len(l) - len(l.lstrip(" "))) // 2, strip_derived(t[3:-3].strip())))
+        ctx.case(key=("reader", repr(c["res"]["items"])), tags=["reader:dump+replay"], size=len(recs),
+                 sample={"replay": out2.splitlines()[:12]} if ci == 0 else None)
+        rep = {"mode": "reader", "records": [(r["t"], r["type"], r["addr"]) for r in recs], "expected_dump": exp_dump,
+               "got_dump": got_dump, "expected_replay": exp_replay, "got_replay": got_replay, "stderr": (err1 + err2)[-400:]}
+        if rc1 != 0 or rc2 != 0:
+            ctx.violation("C17 (reader): uftrace dump/replay fails on a recorded stream with events (rc %d/%d)" % (rc1, rc2),
+                          rep, True)
+        elif got_dump != exp_dump:
+            ctx.violation("C17 (reader): `uftrace dump` does not show the events of the stream with the values they carry",
+                          rep, True)
+        elif [list(x) for x in got_replay] != [list(x) for x in exp_replay]:
+            ctx.violation("C17 (reader): `uftrace replay` does not show the events of the stream inside the right call with the "
+                          "values they carry (diff values are signed differences)", rep, True)
+    ctx.extra["reader_events_checked"] = nev
+
+
+def strip_derived(txt):
+    """drop the derived ratios replay appends to pmu diff events (IPC= / hit= / predict=)"""
+    for key in (" IPC=", " hit=", " predict="):
+        i = txt.find(key)
+        if i >= 0:
+            txt = txt[:i] + (")" if txt.endswith(")") else "")
+    return txt
 
 
 def sample_of(case):
